@@ -150,7 +150,8 @@ class C05(F.Check):
                                 T.ilt(prod, T.const_int(clo * d)))
                     v2 = T.itrunc_div(prod, T.const_int(d))
                     s4 = T.not_(T.in_range(v2, tlo, thi))
-                    divisible = T.eq(T.imod(prod, T.const_int(d)), T.const_int(0))
+                    # N and D are coprime (grid invariant), so D | x*N  <=>  D | x  (stated in the cheaper form; same predicate)
+                    divisible = T.eq(T.imod(v0, T.const_int(d)), T.const_int(0))
                     return v0, s1, ovc, s4, divisible, prod
 
                 def fn_sound(K, x, names=names, steps=steps, t=t, s=s, n=n, d=d):
@@ -217,9 +218,11 @@ class C05(F.Check):
                         if sflt:
                             pre = T.and_(pre, T.fp_isfinite(fs, x))
                         return pre, T.and_(T.not_(cv.ub), T.fp_isfinite(ft, cv.ret))
-                    obs.append(F.Ob("sound:" + tag, xs, fn_sound, kind=kind, routes=routes, key=key, timeout=to,
-                                    kernels=[names["lossy"], names["conv"]],
-                                    note="not lossy<T>(x), x finite => result finite, no UB"))
+                    obs_ = F.Ob("sound:" + tag, xs, fn_sound, kind=kind, routes=routes, key=key, timeout=to,
+                                kernels=[names["lossy"], names["conv"]],
+                                note="not lossy<T>(x), x finite => result finite, no UB")
+                    obs_.aux = (names, ft, c)
+                    obs.append(obs_)
 
                     def fn_complete(K, x, names=names, ft=ft, fs=fs, sflt=sflt):
                         lo, cv = K[names["lossy"]](x), K[names["conv"]](x)
@@ -235,13 +238,26 @@ class C05(F.Check):
 
     def known_predicates(self):
         def d7(ob, vs):
-            # same threshold-rounding finding as C04/D7, seen through the <T> checker when the common type is floating:
-            # |(Common)x| == fl(max(Common) / K)
+            # the C04/D7 threshold-rounding finding seen through the <T> forms when both reps are floating:
+            # |(Common)x| == fl(max(Common) / K), K = the multiplier the library applies in the common type (mid(1.0))
             aux = getattr(ob, "aux", None)
-            if aux is None:
+            if aux is None or not vs:
                 return None
-            return None
-        return {}
+            names, ft, c = aux
+            s_ = ob.key["S"]
+            if not F.ct_is_float(s_):
+                return None
+            fs, fc = F.FMT_OF[s_], F.FMT_OF[c]
+            from .. import fpeval
+            one = T.const_bv(fpeval.from_fraction(fs, Fraction(1)), T.fmt_width(fs))
+            kk = self.K[names["mid"]](one).ret
+            if not T.is_const(kk):
+                return None
+            wc = T.fmt_width(fc)
+            maxbits = (((1 << fc[0]) - 2) << (fc[1] - 1)) | ((1 << (fc[1] - 1)) - 1)
+            limit = T.fp_bin("div", fc, T.const_bv(maxbits, wc), kk)
+            return T.eq(T.fp_abs(fc, T.fp_cvt(fs, fc, vs[0])), limit)
+        return {"D7": d7}
 
 
 CHECK = C05
